@@ -240,8 +240,11 @@ def isolate(p):
             if k not in order:
                 order.append(k)
         res = {}
+        buckets, wf = D.lifetimes(log)         # bucket by creation order of the groups
+        if len(buckets) != len(order):
+            return None
         for gi, k in enumerate(order):
-            res[k] = [e[2] for e in log if e[0] == 'n' and e[1] == gi]
+            res[k] = buckets[gi]
         return res
     return mk('isolate', sig, pre, body)
 
